@@ -306,6 +306,18 @@ func frozen(in []byte) []byte {
 	return inputRegion[:len(in):len(in)]
 }
 
+// scribbleInput overwrites the first n bytes of the input region.
+func scribbleInput(n int) {
+	if inputRegion == nil || n > len(inputRegion) {
+		return
+	}
+	syscall.Mprotect(inputRegion, syscall.PROT_READ|syscall.PROT_WRITE)
+	for i := 0; i < n; i++ {
+		inputRegion[i] = 0xAA
+	}
+	syscall.Mprotect(inputRegion, syscall.PROT_READ)
+}
+
 func inInputRegion(addr uintptr) bool {
 	if inputRegion == nil {
 		return false
@@ -478,6 +490,11 @@ func (c *runCtx) check(decIdx int, in []byte) string {
 		return "ok:no-geometry"
 	}
 	c.res.Stats["decodes_returning_geometry"]++
+	// The medium's buffer is recycled once the read has returned (database/sql:
+	// a []byte source is only valid until the next call): what the decoder
+	// returned must not live in it.
+	scribbleInput(len(in))
+	c.res.Stats["fault/buffer-recycled-after-read"]++
 	if d.validated {
 		var verr error
 		_, ex, pv, stack := vs.Solo(stepBudget(len(in)), func() { verr = g.Validate() })
@@ -615,7 +632,7 @@ func (e *engine) Run(src *vs.Source, tier string, idx int64) *simkit.RunResult {
 		res.Stats["fault/"+kind]++
 		use := decs
 		nth++
-		if len(adapters) > 0 && (kind == "control" || kind == "hex-text" || nth%6 == 0) {
+		if len(adapters) > 0 && (kind == "control" || kind == "hex-text" || kind == "ordinate-smash" || nth%6 == 0) {
 			use = append(append([]int(nil), decs...), adapters...)
 		}
 		for _, di := range use {
